@@ -949,6 +949,13 @@ func runC04(c *Ctx) {
 				rs, _ := plyImplReadMesh(data)
 				c.Emit("c04.read", plyHx(data), rs)
 				c.Emit("c04.holds.roundtrip", w.tok(f)+" "+plyMeshTok(m)+" "+rs, "true")
+				// round 2: this configuration is INSIDE the header-level guard of the closed round-trip theorems (the fourth
+				// name of the colour group stands after the group with another type: wHarmless), and the claim stage on the
+				// real header builds Position, Color (3-vector fallback), then the scalar alpha
+				c.Emit("c04.holds.claim_guard_inside", w.tok(f)+" "+plyMeshTok(m), "true")
+				if hl := strings.Index(string(data), "end_header\n"); hl >= 0 {
+					c.Emit("c04.holds.claim_ok", w.tok(f)+" "+plyMeshTok(m)+" "+plyHx(data[:hl+11]), "true")
+				}
 			}
 		}
 		// KNOWN FINDING C04-w-name-before-group-other-type (witness, expected false): a custom scalar writer for a user
